@@ -486,7 +486,14 @@ func (k *know) next(malformed bool) evt {
 				continue
 			}
 			k.tag++
-			return evt{tok: fmt.Sprintf("c%d,%s,%d", hs[r.Intn(len(hs))], k.appCaps(), k.tag)}
+			h := hs[r.Intn(len(hs))]
+			caps := k.appCaps()
+			if k.hloc[h] {
+				// the handle is (or may be) a capability of this vat: the call does not go through the
+				// connection, and the model does not follow the parameters of such calls
+				caps = "-"
+			}
+			return evt{tok: fmt.Sprintf("c%d,%s,%d", h, caps, k.tag)}
 		case 8: // application call pipelined on a question
 			if len(callCQ) == 0 {
 				continue
